@@ -1072,12 +1072,17 @@ func (env *SpecEnv) assumeEnsures(e ast.Expr, ret Val, sig *types.Signature) Val
 	case *ast.CallExpr:
 		if id, ok := n.Fun.(*ast.Ident); ok && id.Name == "carries" && len(n.Args) == 2 {
 			lit, _ := n.Args[1].(*ast.BasicLit)
-			cv, ok := env.eval(n.Args[0]).(*ChanV)
+			av := env.eval(n.Args[0])
+			cv, ok := av.(*ChanV)
 			if lit != nil && ok && cv.Obj != nil {
 				lbl, _ := strconv.Unquote(lit.Value)
 				if d := env.x.P.chanInvByLabel(lbl); d != nil {
 					env.x.attachEngineChanInv(cv.Obj, d)
+				} else {
+					env.errf("carries: unknown channel invariant label %q", lbl)
 				}
+			} else {
+				env.errf("carries: %s is not a channel (%T)", exprString(n.Args[0]), av)
 			}
 			return ret
 		}
